@@ -60,7 +60,8 @@ def calls_for(combo):
     for name, k in zip(names, combo):
         opts = []
         if k == "P":
-            opts = [("pos", v) for v in (0, 1)] + [("kw", v) for v in (0, 1)]
+            # values that are == but of different type (1 == True == 1.0, 0.0 == -0.0) must still give different keys
+            opts = [("pos", v) for v in (0, 1, True, 1.0, -0.0)] + [("kw", v) for v in (0, 1, True)]
         elif k == "D":
             opts = [("omit", None)] + [("pos", v) for v in (0, 5)] + [("kw", v) for v in (0, 5)]
         elif k == "V":
@@ -119,7 +120,8 @@ def reference_identity(t, combo, config, args, kwargs):
         if p.default is not p.empty and p.name not in kw and not (p.name in pos_names and pos_names.index(p.name) < len(args)):
             kw[p.name] = p.default
     kw = {k: v for k, v in kw.items() if k not in config}
-    return (tuple(v for _, v in pos), tuple(sorted(kw.items())))
+    ty = lambda v: (type(v).__name__, repr(v))  # noqa: E731  typed: 1, True and 1.0 are different arguments
+    return (tuple(ty(v) for _, v in pos), tuple(sorted((k, ty(v)) for k, v in kw.items())))
 
 
 def work(arg):
